@@ -5,6 +5,9 @@ pub mod c05;
 pub mod cobs;
 pub mod crc;
 pub mod stacks;
+pub mod fixint;
+pub mod maxsize;
+pub mod io;
 
 use crate::rt::{Ctx, Tier};
 
@@ -24,6 +27,9 @@ pub fn run(id: &str, tier: Tier, seed: u64) -> i32 {
         "C07" => cobs::run_c07(&ctx),
         "C08" => acc::run(&ctx, false),
         "C10" => crc::run(&ctx),
+        "C11" => io::run(&ctx),
+        "C12" => maxsize::run(&ctx),
+        "C13" => fixint::run(&ctx),
         "C20" => stacks::run(&ctx),
         "C09" => acc::run(&ctx, true),
         _ => {
